@@ -120,8 +120,9 @@ def real_db_part(rep, bd, thorough):
     # the same operations, each as the first operation on a fresh database
     step = 1 if thorough else 5
     fresh = None
-    for i in range(0, len(ops), step):
-        if fresh is None or i % (40 * step) == 0:
+    chosen = sorted(set(range(0, len(ops), step)) | {i for i, (name_, _f) in enumerate(ops) if name_.startswith(("Quantity.CreateDerived(map", "CheckCategoryUnit(unregistered", "len(Get", "GetUnits(first"))})
+    for k_, i in enumerate(chosen):
+        if fresh is None or k_ % 40 == 0:
             fresh = export.build_db("default")   # rebuilt regularly so that it stays (nearly) cold
         UnitDatabase.PushSingleton(fresh)
         try:
